@@ -81,7 +81,7 @@ Qed.
 (* the configuration part of the state is never touched by a history ... *)
 Lemma client_step_timeout : forall c e, c_timeout (client_step c e) = c_timeout c.
 Proof.
-  intros c e. destruct e; cbn [client_step]; unfold after_gsv, set_phase, die;
+  intros c e. destruct e; cbn [client_step]; unfold sent_one, after_gsv, set_phase, die;
     repeat match goal with
            | |- context [match ?x with _ => _ end] => destruct x
            end; reflexivity.
@@ -97,7 +97,7 @@ Qed.
 (* ... and negotiation only ever lowers the version *)
 Lemma client_step_version : forall c e, c_ver (client_step c e) <= c_ver c.
 Proof.
-  intros c e. destruct e; cbn [client_step]; unfold after_gsv, set_phase, die;
+  intros c e. destruct e; cbn [client_step]; unfold sent_one, after_gsv, set_phase, die;
     repeat match goal with
            | |- context [match ?x with _ => _ end] => destruct x eqn:?
            end; cbn [c_ver]; try lia;
@@ -116,6 +116,118 @@ Qed.
 (* a dead read side stays dead *)
 Lemma client_step_dead : forall c e, c_phase c = PDead -> c_phase (client_step c e) = PDead.
 Proof.
-  intros c e H. destruct e; cbn [client_step]; unfold reading; rewrite ?H; cbn [c_phase];
+  intros c e H. destruct e; cbn [client_step]; unfold reading, sendable; rewrite ?H; cbn [c_phase];
     first [assumption | reflexivity].
+Qed.
+
+(* ------------------------------------------------------------------ the send paths *)
+
+Lemma new_message_none : forall len typ,
+  new_message len typ = None <-> (1023 < typ \/ 900 <= typ <= 999 \/ 2 ^ 32 - 11 < len).
+Proof.
+  intros len typ. rewrite <- (hdr_encode_refuses (mkHdr version_min typ len 0)).
+  unfold new_message, hdr_encode. cbn [h_len h_typ].
+  destruct (validate_header len typ); split; intros H; try discriminate; reflexivity.
+Qed.
+
+(* refused exactly when nothing takes the message, or the type is reserved or out of range, or
+   the length does not fit *)
+Lemma client_send_refused_iff : forall c typ len,
+  client_send c typ len = None <->
+  (sendable c = false \/ 1023 < typ \/ 900 <= typ <= 999 \/ 2 ^ 32 - 11 < len).
+Proof.
+  intros c typ len. unfold client_send. destruct (sendable c).
+  - rewrite <- new_message_none. destruct (new_message len typ).
+    + split; [discriminate | intros [H|H]; discriminate].
+    + split; [intros _; right; reflexivity | reflexivity].
+  - split; [intros _; left; reflexivity | reflexivity].
+Qed.
+
+(* what is not refused goes out as 10 bytes that decode to exactly that type and length, the
+   version in use (1.1 for the two negotiation messages) and the next message ID *)
+Lemma client_send_decodes : forall c typ len b, c_ver c < 8 -> c_next_id c < 2 ^ 32 ->
+  client_send c typ len = Some b ->
+  length b = 10%nat /\
+  hdr_decode b = HOk (mkHdr (if (typ =? 46) || (typ =? 47) then 2 else c_ver c) typ len (c_next_id c)).
+Proof.
+  intros c typ len b V I H. unfold client_send in H.
+  destruct (sendable c); [|discriminate].
+  unfold new_message in H. destruct (validate_header len typ) eqn:E; [|discriminate].
+  injection H as <-. unfold client_write_header, stamp. cbn [h_typ h_len h_id].
+  change (0 =? 0) with true. cbv iota.
+  set (h := mkHdr (if (typ =? 46) || (typ =? 47) then 2 else c_ver c) typ len (c_next_id c)).
+  assert (He : hdr_encode h = Some (hdr_write h)).
+  { unfold hdr_encode. subst h. cbn [h_len h_typ]. rewrite E. reflexivity. }
+  split; [apply hdr_write_length|].
+  apply validate_header_true in E.
+  apply hdr_roundtrip_enc_dec; [| |exact He].
+  - subst h. unfold wf_hdr. cbn [h_ver h_typ h_len h_id].
+    change (2 ^ 8) with 256. change (2 ^ 16) with 65536. change (2 ^ 32) with 4294967296 in *.
+    unfold max_msg_type, max_payload_sz in E.
+    destruct ((typ =? 46) || (typ =? 47)); repeat split; lia.
+  - subst h. cbn [h_ver]. destruct ((typ =? 46) || (typ =? 47)); lia.
+Qed.
+
+Lemma client_send_all_length : forall reqs c, length (client_send_all c reqs) = length reqs.
+Proof.
+  induction reqs as [|[t l] rest IH]; intros c; cbn [client_send_all length]; [reflexivity|].
+  rewrite IH. reflexivity.
+Qed.
+
+(* ------------------------------------------------------------------ a connection that fails inside the header *)
+
+(* whatever writeHeader reports, the peer has received a prefix of the header's encoding; all of
+   it whenever success is reported; and a failed Write is always reported *)
+Lemma client_write_header_io_prefix : forall c h f,
+  let r := client_write_header_io c h f in
+  (exists rest, client_write_header c h = fst r ++ rest)
+  /\ (snd r = true -> fst r = client_write_header c h)
+  /\ (snd r = true <-> f = WNoFault).
+Proof.
+  intros c h f. unfold client_write_header_io, conn_write. destruct f as [|k t]; cbn [fst snd].
+  - split; [exists []; rewrite app_nil_r; reflexivity|]. split; [reflexivity|]. split; reflexivity.
+  - split; [exists (skipn k (client_write_header c h)); symmetry; apply firstn_skipn|].
+    split; [discriminate|]. split; discriminate.
+Qed.
+
+Lemma client_send_io_prefix : forall c typ len f got ok,
+  client_send_io c typ len f = Some (got, ok) ->
+  exists hb, client_send c typ len = Some hb
+    /\ (ok = true -> f = WNoFault /\ got = hb ++ repeat 0 (N.to_nat len))
+    /\ (ok = false -> exists rest, hb = got ++ rest).
+Proof.
+  intros c typ len f got ok H. unfold client_send_io in H.
+  destruct (client_send c typ len) as [hb|]; [|discriminate]. exists hb. split; [reflexivity|].
+  unfold conn_write in H. destruct f as [|k t]; injection H as <- <-.
+  - split; [intros _; split; reflexivity | discriminate].
+  - split; [discriminate | intros _; exists (skipn k hb); symmetry; apply firstn_skipn].
+Qed.
+
+(* the message ID counter stays a uint32 along every history *)
+Lemma client_step_next_id : forall c e, c_next_id c < 2 ^ 32 -> c_next_id (client_step c e) < 2 ^ 32.
+Proof.
+  intros c e H. assert (M : next_id c < 2 ^ 32) by (unfold next_id; apply N.mod_lt; discriminate).
+  destruct e; cbn [client_step]; unfold sent_one, after_gsv, set_phase, die;
+    repeat match goal with
+           | |- context [match ?x with _ => _ end] => destruct x
+           end; cbn [c_next_id]; assumption.
+Qed.
+
+Lemma client_run_next_id : forall evs c, c_next_id c < 2 ^ 32 -> c_next_id (client_run c evs) < 2 ^ 32.
+Proof.
+  induction evs as [|e rest IH]; intros c H; cbn [client_run fold_left]; [assumption|].
+  change (c_next_id (client_run (client_step c e) rest) < 2 ^ 32).
+  apply IH, client_step_next_id, H.
+Qed.
+
+(* after any history of a client configured with a version that fits the field *)
+Lemma client_send_decodes_history : forall v timeout evs typ len b, v < 8 ->
+  let c := client_run (c_new v timeout) evs in
+  client_send c typ len = Some b ->
+  length b = 10%nat /\
+  hdr_decode b = HOk (mkHdr (if (typ =? 46) || (typ =? 47) then 2 else c_ver c) typ len (c_next_id c)).
+Proof.
+  intros v t evs typ len b V c H. apply client_send_decodes; [| |exact H].
+  - pose proof (client_run_version evs (c_new v t)). cbn [c_new c_ver] in H0. subst c. lia.
+  - subst c. apply client_run_next_id. cbn. reflexivity.
 Qed.
